@@ -140,7 +140,14 @@ def foci_stream(ctx, n):
         f1 = [rng.randint(-4, 4), rng.randint(-4, 4)]
         f2 = [rng.randint(-4, 4), rng.randint(-4, 4)]
         b = [rng.randint(-6, 6), rng.randint(-6, 6)]
-        if f1 == f2 or b in (f1, f2):
+        if f1 == f2:
+            continue
+        if k % 4 == 0:
+            # bound on the perpendicular bisector of the foci: the confocal hyperbola degenerates, only the ellipse is left
+            t = rng.choice([-2, -1, 1, 2, 3])
+            b = [Fraction(f1[0] + f2[0], 2) + t * (f2[1] - f1[1]), Fraction(f1[1] + f2[1], 2) - t * (f2[0] - f1[0])]
+            b = [float(b[0]), float(b[1])]
+        if b in (f1, f2):
             continue
         # bound must not be on the segment/line through the foci in a degenerate way
         if (f2[0] - f1[0]) * (b[1] - f1[1]) - (f2[1] - f1[1]) * (b[0] - f1[0]) == 0:
@@ -188,11 +195,14 @@ def circle_stream(ctx, n):
         miss = [px + rng.choice([1, -1, Fraction(1, 2)]), py]
         for p in ([px, py, Fraction(1)], miss + [Fraction(1)]):
             reqs.append("spec.quadform " + ET((3, 3), [Fraction(x) for row in A for x in row]).enc() + " " + ET((3,), p).enc())
+        # the matrix that translator A regenerated from Ellipse.__init__ (the one the theorems T13_ellipse_code_* are about)
+        reqs.append("gen.ellipse " + " ".join(f"{Fraction(x).numerator}/{Fraction(x).denominator}" for x in (cx, cy, hr, vr)))
         todo.append((kind, cx, cy, hr, vr, [px, py], miss))
     answers = run_driver(reqs)
     for i, (kind, cx, cy, hr, vr, p, miss) in enumerate(todo):
-        onv = dec_q(answers[2 * i].split(" ")[1])[0] == 0
-        missv = dec_q(answers[2 * i + 1].split(" ")[1])[0] == 0
+        onv = dec_q(answers[3 * i].split(" ")[1])[0] == 0
+        missv = dec_q(answers[3 * i + 1].split(" ")[1])[0] == 0
+        gen_m = answers[3 * i + 2]
         # centre with an arbitrary homogeneous scale (also as a meet of two lines)
         how = rng.choice(["plain", "scaled", "meet"])
         if how == "plain":
@@ -210,6 +220,14 @@ def circle_stream(ctx, n):
             ctx.disagree(f"C13:{kind}:error", desc, "a conic", q[1:3], replay=[desc])
             continue
         Q = q[1]
+        if gen_m.startswith("ok"):
+            G = np.array([float(Fraction(x.split("_")[0])) for x in gen_m.split(" ")[1].split(":")[2].split(",")]).reshape(3, 3)
+            if not proj_close_nn(np.asarray(Q.array, dtype=float), G, 1e-9):
+                ctx.disagree(f"C13:{kind}:generated-matrix", desc, G.tolist(), np.asarray(Q.array).tolist(), replay=[desc])
+                continue
+        else:
+            ctx.disagree(f"C13:{kind}:generated-matrix:driver", desc, "ok", gen_m, replay=[desc])
+            continue
         r1 = call_impl(lambda: bool(Q.contains(g.Point(float(p[0]), float(p[1])))))
         r2 = call_impl(lambda: bool(Q.contains(g.Point(float(miss[0]), float(miss[1])))))
         if r1[0] != "ok" or r2[0] != "ok" or r1[1] != onv or r2[1] != missv:
@@ -260,6 +278,15 @@ def sphere_stream(ctx, n):
             ctx.disagree("C13:sphere:error", desc, "a sphere", s[1:3], replay=[desc])
             continue
         S = s[1]
+        gen_m = run_driver([f"gen.sphere {c[0]}/1 {c[1]}/1 {c[2]}/1 {r}/1"])[0]
+        if gen_m.startswith("ok"):
+            G = np.array([float(Fraction(x.split("_")[0])) for x in gen_m.split(" ")[1].split(":")[2].split(",")]).reshape(4, 4)
+            if not proj_close_nn(np.asarray(S.array, dtype=float), G, 1e-9):
+                ctx.disagree("C13:sphere:generated-matrix", desc, G.tolist(), np.asarray(S.array).tolist(), replay=[desc])
+                continue
+        else:
+            ctx.disagree("C13:sphere:generated-matrix:driver", desc, "ok", gen_m, replay=[desc])
+            continue
         r1 = call_impl(lambda: (bool(S.contains(g.Point(*p))), bool(S.contains(g.Point(*miss)))))
         if r1[0] != "ok" or r1[1] != (True, False):
             ctx.disagree("C13:sphere:locus", desc, (True, False), r1[1:3], replay=[desc])
